@@ -149,6 +149,11 @@ func (b *body) Read(p []byte) (int, error) {
 		if e.readOff < limit {
 			n := copy(p, e.written.Bytes()[e.readOff:limit])
 			e.readOff += n
+			// Like net/http for a body whose end is already known, deliver the last bytes
+			// together with a clean EOF in one Read call.
+			if e.readOff == limit && ((e.cut && e.cutErr == nil) || (!e.cut && e.handlerDone)) {
+				return n, io.EOF
+			}
 			return n, nil
 		}
 		if e.cut {
